@@ -137,6 +137,61 @@ def unit_rows(tname):
     return u
 
 
+def unit_bounded(tname):
+    """bounded stand-in (never counted as proved): concrete words through the real accessors and the real bit-row printer -
+    zero, all ones, every single bit, every field holding 1, 2, its maximum and max-1, plus 64 pseudo-random words; it decides
+    when the symbolic units cannot (bit tricks, float arithmetic, string padding by computed widths)"""
+    import random
+    import re
+    import importlib
+    from tpmstream.common.event import MarshalEvent
+    from tpmstream.common.path import Path, PathNode
+
+    P = importlib.import_module("tpmstream.io.pretty.unmarshal")
+    ANSI = re.compile(r"\x1b\[[0-9;]*m")
+    T = next(t for t in tpma_types() if t.__name__ == tname)
+    u = UnitResult(f"XC17/{tname}")
+    u.functions = FUNCS
+    width = 8 * T._int_size
+    pinned = layout()["primitives"][tname]["bitfields"]
+    masks = sorted(((b[0], b[1]) for b in pinned), key=lambda nm: nm[1])
+    words = {0, (1 << width) - 1} | {1 << k for k in range(width)}
+    for _, m in masks:
+        sh = (m & -m).bit_length() - 1
+        top = m >> sh
+        for fv in (1, 2, top, top - 1):
+            if 0 <= fv <= top:
+                words.add(fv << sh)
+                words.add(((1 << width) - 1) & ~m | (fv << sh))
+    rng = random.Random(17)
+    words |= {rng.getrandbits(width) for _ in range(64)}
+    path = Path((PathNode(""), PathNode("attrs")))
+    dis = []
+    n = 0
+    for v in sorted(words):
+        n += 1
+        try:
+            obj = T(v)
+            for name, m in masks:
+                sh = (m & -m).bit_length() - 1
+                got = getattr(obj, name)
+                if int(got) != (v & m) >> sh:
+                    dis.append({"input": {"type": tname, "word": hex(v), "field": name}, "detail": f"{tname}({v:#x}).{name} returned {int(got):#x}, the field's right-aligned bits are {(v & m) >> sh:#x}", "site": "values.py:Bit.__get__"})
+            rows = [ANSI.sub("", r) for r in P.pretty_attrs(MarshalEvent(path, T, obj))]
+            want = []
+            for name, m in masks:
+                bits = "".join((str((v >> k) & 1) if (m >> k) & 1 else ".") for k in range(width - 1, -1, -1))
+                want.append(ANSI.sub("", P.format(None, path + PathNode(name), None, bits)))
+            if rows != want:
+                k = next((i for i, (a, b) in enumerate(zip(rows, want)) if a != b), min(len(rows), len(want)))
+                dis.append({"input": {"type": tname, "word": hex(v)}, "detail": f"bit rows of {tname}({v:#x}): {len(rows)} rows, expected {len(want)}; first difference at row {k}: {rows[k] if k < len(rows) else None!r} expected {want[k] if k < len(want) else None!r}", "site": "pretty/unmarshal.py:pretty_attrs"})
+        except Exception as e:  # noqa
+            dis.append({"input": {"type": tname, "word": hex(v)}, "detail": f"{type(e).__name__}: {e}", "site": "attribute word"})
+    u.bounded.append({"name": f"attribute-words/{tname}", "bound": f"{n} words (0, all ones, single bits, per-field boundary values, 64 pseudo-random)", "evaluations": n, "disagreements": dis[:8], "all_disagreements": len(dis)})
+    u.obligations.append({"name": f"{u.name}/ran", "kind": "bounded-bookkeeping", "site": "", "status": "proved", "backend": "bookkeeping", "seconds": 0, "model": None, "detail": f"{n} words"})
+    return u
+
+
 def unit_canary():
     """a wrong accessor spec (no right-alignment) must be refuted for a mask that does not start at bit 0"""
     from tpmstream.spec.structures.attribute_structures import TPMA_SESSION
@@ -207,7 +262,7 @@ def run(tier, seed, only=None):
     rep.replayer = replayer
     jobs = []
     for t in tpma_types():
-        jobs += [(unit_masks, (t.__name__,)), (unit_get, (t.__name__,)), (unit_rows, (t.__name__,))]
+        jobs += [(unit_masks, (t.__name__,)), (unit_get, (t.__name__,)), (unit_rows, (t.__name__,)), (unit_bounded, (t.__name__,))]
     jobs.append((unit_canary, ()))
     if only:
         jobs = [j for j in jobs if only in repr(j)]
